@@ -304,8 +304,31 @@ def _macro_calls(body):
 TOKV = {k.split("(")[0]: v for k, v in KIND.items() if not k.startswith("Terminator")}
 
 
+# the caching macros as the model reads them (comments and the guarded hook line removed, blanks collapsed):
+# cache_check! looks the key up and returns a hit; cache_return! stores unconditionally and returns;
+# try_return! / try_eval! leave through cache_return!. `memoised` below means exactly this.
+MODELLED_MACROS = {
+    "cache_check": "($cache:ident, $nonterminal:ident, $start:expr $(,)?) => {{ let start = $start; let cache_key = (Nonterminal::$nonterminal, start); if let Some(result) = $cache.get(&cache_key) { return result.clone(); } cache_key }};",
+    "cache_return": "($cache:ident, $cache_key:expr, $value:expr $(,)?) => {{ let cache_key = $cache_key; let value = $value; $cache.insert(cache_key, value.clone()); return value; }};",
+    "try_return": "($cache:ident, $cache_key:expr, $value:expr $(,)?) => {{ let cache_key = $cache_key; let value = $value; if let Variant::ParseError = value.0.variant { } else { cache_return!($cache, cache_key, value) } }};",
+    "try_eval": "($cache:ident, $cache_key:expr, $value:expr $(,)?) => {{ let cache_key = $cache_key; let value = $value; if let Variant::ParseError = value.0.variant { cache_return!($cache, cache_key, value) } value }};",
+}
+
+
+def _macros_as_modelled(src):
+    for name, want in MODELLED_MACROS.items():
+        m = re.search(r"macro_rules! %s \{(.*?)\n\}\n" % name, src, re.S)
+        if not m:
+            return False
+        body = re.sub(r'#\[cfg\(feature = "verif"\)\]\s*crate::verif_hooks::bump\([^)]*\);', "", m.group(1))
+        if re.sub(r"\s+", " ", body).strip() != want:
+            return False
+    return True
+
+
 def gen_parser_skeleton(repo):
     src = _strip_comments(_read(repo, "src/parser.rs"))
+    macros_ok = _macros_as_modelled(src)
     test = src.find("#[cfg(test)]")
     if test > 0:
         src = src[:test]
@@ -325,6 +348,8 @@ def gen_parser_skeleton(repo):
         memoised = bool(calls) and calls[0] == ("check", name)
         # every exit must go through cache_return!/try_return!/try_eval!/consume_token: no bare `return`
         if re.search(r"\breturn\b", body):
+            memoised = False
+        if not macros_ok:
             memoised = False
         memo.append((NT[name], memoised))
         rest = [c for c in calls if c[0] != "check"]
